@@ -52,7 +52,9 @@ func check(c Case) *vk.Failure {
 	if f := vk.Try(fmt.Sprintf("ShardByPrefix(%d keys %x, %d)", n, keys, c.MaxSize), func() { L, B = sigbits.ShardByPrefix(keys, c.MaxSize) }); f != nil {
 		return f
 	}
-	desc := func() string { return fmt.Sprintf("ShardByPrefix(keys=%x, maxSize=%d) = L%v B%v", orig, c.MaxSize, L, B) }
+	desc := func() string {
+		return fmt.Sprintf("ShardByPrefix(keys=%x, maxSize=%d) = L%v B%v", orig, c.MaxSize, L, B)
+	}
 	if len(B) != len(L)+1 {
 		return vk.Failf("shape", "%s: len(B) = %d, len(L) = %d", desc(), len(B), len(L))
 	}
